@@ -301,7 +301,8 @@ def gen_case(st, tier, flavour):
                 for n in names:
                     pass
         elif k == "simple_command":
-            cmd = rp.choice(["/bin/uname -a", "/usr/sbin/lsmod", "/bin/show all", "/bin/runas -l  db2  -c cfg"])
+            cmd = rp.choice(["/bin/uname -a", "/usr/sbin/lsmod", "/bin/show all", "/bin/runas -l  db2  -c cfg",
+                             "probetool", "probetool --verbose now"])      # (a bare command name, found through PATH)
             add_cmd(" ".join(cmd.split()), fail=rf.random() < 0.1)       # the table is keyed by what gets executed
             sp["cmd"] = cmd                                               # ... the spec may be spelled with runs of blanks
             if rp.random() < 0.25:
@@ -365,6 +366,8 @@ def gen_case(st, tier, flavour):
                         dfiles.append("/var/log/%s.log" % rk.choice(e))
                 elif sp["factory"] == "simple_command":
                     dcmds.append(sp["cmd"] if rk.random() < 0.6 else rk.choice([sp["cmd"].split()[0], sp["cmd"].rsplit(" ", 1)[0]]))
+                    if "/" not in dcmds[-1] and " " not in dcmds[-1] and rk.random() < 0.6:
+                        dfiles.append(dcmds[-1])         # the same identifier-like word under files: too (it is not a spec name)
                 elif sp["factory"] == "command_with_args":
                     dcmds.append(rk.choice(["/bin/argcmd %s" % sp["arg"], "/bin/argcmd"]))
                 elif sp["factory"] == "foreach_execute":
@@ -399,6 +402,8 @@ def gen_case(st, tier, flavour):
                 case["faults"].append({"kind": rf.choice(["write-open", "write-open", "mkdir", "short-data", "fail-data", "fail-meta"]),
                                        "nth": rf.choice([1, 1, 2, 3, 5]), "errno": rf.choice(["ENOSPC", "EIO"]),
                                        "after": rf.choice([0, 1, 7, 30])})
+        if rk.random() < 0.12:
+            case["load_via_link"] = True
         if case["entry"] == "mirror" and not case["faults"] and rk.random() < 0.15:
             # the archive directory is used a second time: the host's files and command outputs have become shorter and
             # the spec set is collected again into the SAME directory (collect() accepts an existing one)
@@ -922,8 +927,27 @@ def collect_phase_real(case, env, Ctx, rps, impls, stats):
     return c
 
 
-def load_phase(env):
+def load_phase(env, stats=None):
     """Mirror of analysis: the real archive detection + hydration into a fresh broker."""
+    if env.case.get("load_via_link"):
+        # archives are reached through a 'current' link: first it names an older archive (a copy, loaded and thrown
+        # away), then it is re-pointed at the archive under test, which is loaded through the same path
+        prev = os.path.join(env.base, "out-previous", "insights-archive")
+        shutil.copytree(env.out, prev, symlinks=True)
+        link = os.path.join(env.base, "current")
+        os.symlink(prev, link)
+        try:
+            hydration.initialize_broker(link)
+        except HarnessError:
+            raise
+        except Exception:
+            pass
+        os.remove(link)
+        os.symlink(env.out, link)
+        if stats is not None:
+            stats["probes"]["archive_loaded_through_repointed_link"] = 1
+        ctx, broker = hydration.initialize_broker(link)
+        return ctx, broker
     ctx, broker = hydration.initialize_broker(env.out)
     return ctx, broker
 
@@ -1145,7 +1169,7 @@ def oracle_c11(case, env, c, rps, impls, stats):
     touched = corrupt_archive(case, env, rps, stats)
     # ---- load
     try:
-        ctx, lb = load_phase(env)
+        ctx, lb = load_phase(env, stats)
     except HarnessError:
         raise
     except Exception as e:
